@@ -290,6 +290,31 @@ def rw_loop_break_head(text, log):
         text = _replace_spans(text, spans)
 
 
+def rw_drop_inner_use(text, log):
+    """D1 inside bodies: `use path;` statements in a function body are dropped, so that names resolve to the prelude stand-ins
+    (a real `use std::fs::OpenOptions;` would otherwise shadow the stand-in of the same name)."""
+    st = rtok.sig(rtok.lex(text))
+    spans = []
+    i = 0
+    n = 0
+    while i < len(st):
+        if st[i][0] == 'ident' and st[i][1] == 'use' and (i == 0 or st[i - 1][1] in ('{', ';', '}')):
+            j = i
+            while j < len(st) and st[j][1] != ';':
+                if st[j][1] in ('{',):
+                    j = rtok.match_close(st, j)
+                j += 1
+            if j < len(st):
+                spans.append((st[i][2], st[j][3], ''))
+                n += 1
+                i = j
+        i += 1
+    if spans:
+        log.append('D1 %d `use` statement(s) inside the body dropped' % n)
+        text = _replace_spans(text, spans)
+    return text
+
+
 def rw_vecslice(text, names, log):
     """R8: `&mut NAME[` -> `&mut NAME.as_mut_slice()[` ; `&NAME[` -> `&NAME.as_slice()[`"""
     st = rtok.sig(rtok.lex(text))
@@ -529,6 +554,7 @@ def build_fn(fs, repo, effectful, table_keys, canary=False):
         else:
             raise specmod.SpecError('%s: unknown rewrite %s' % (origin, kind))
 
+    text = rw_drop_inner_use(text, log)
     text = rw_loop_break_head(text, log)
     text, r12 = rw_for_continue(text, log)
     for n, (inv_t, dec_t) in r12.items():
